@@ -46,3 +46,23 @@ example : Stride.pushLegacy .wrapping (.striding (2^63) 2) 0 = some (.striding (
 example : ¬ (Stride.striding (2^63) 2).Continues 0 := by simp [Stride.Continues, USIZE]
 
 end FC.C05
+
+namespace FC.C05
+open FC
+/-- **append-only at the container level (C02's mechanisms)**: a push never changes what an earlier
+position reads — not when `IndexOptimized` leaves the stride and starts spilling, not when
+`IndexList` switches from its `u32` list to its `u64` list -/
+theorem push_keeps_prefix {C : Type} [IdxCont C Nat] [L : LawfulIdxCont C] (c : C) (x : Nat) (hi : IdxCont.Inv c)
+    (i : Nat) (h : i < IdxCont.len c) : IdxCont.index (IdxCont.push c x) i = IdxCont.index c i := by
+  rw [L.index_eq _ i (L.inv_push c x hi), L.index_eq _ i hi, L.iter_push c x hi]
+  rw [L.len_eq c hi] at h
+  exact List.getElem?_append_left h
+
+theorem indexOptimized_spill_keeps_prefix (o : IndexOptimized) (x : Nat) (hi : o.strided.Inv) (i : Nat) (h : i < o.len) :
+    (o.push x).index i = o.index i :=
+  push_keeps_prefix (C := IndexOptimized) o x hi i h
+
+theorem indexList_chonk_keeps_smol (l : IndexList) (x : Nat) (i : Nat) (h : i < l.len) :
+    (l.push x).index i = l.index i :=
+  push_keeps_prefix (C := IndexList) l x trivial i h
+end FC.C05
